@@ -205,6 +205,8 @@ EXTERNS = {
   'MethodReturnMessage.__init__': dict(params=[('return_value', 'any'), ('error', 'any')], returns='MethodReturnMessage', fresh=True, allocates=True,
                                        modifies=['MethodReturnMessage.error', 'MethodReturnMessage.return_value', 'MethodReturnMessage.stack'],
                                        ensures=['result.error == error and result.return_value == return_value',
+                                                # message.py: "if error:" captures the current stack -- the dispatcher wraps an error only when one was recorded
+                                                'result.stack is not None if truthy(error) else result.stack is None',
                                                 'forall_ref(m, MethodReturnMessage, implies(m != result, m.error == old(m.error) and m.return_value == old(m.return_value)), m.error)']),
   'TimeoutError.__init__': dict(params=[], returns='TimeoutError', fresh=True, allocates=True),
   '<call>': dict(params=[], varargs=True, returns='any', ensures=['result is not None'], allocates=True,
